@@ -1,1 +1,4 @@
-
+import Lemmas.Sort
+import Lemmas.Key
+import Lemmas.Vector
+import Lemmas.Rank
